@@ -277,6 +277,10 @@ def run_concrete(module, func, params, vals, funcs, real_env):
         out["kind"] = "unsupported"
         out["msg"] = repr(e)
     except Exception as e:  # noqa: BLE001
+        if type(e).__name__ == "Unrealised":
+            out["kind"] = "unrealised"
+            out["msg"] = str(e)
+            return out | {"failed": [], "passed": 0, "offtable": [], "info": {}}
         out["kind"] = "exc"
         out["exc"], out["site"] = _exc_site(e)
         out["msg"] = str(e)[:300]
@@ -299,15 +303,28 @@ class ConcreteServer:
             [sys.executable, "-m", "symx.concrete"], stdin=subprocess.PIPE, stdout=subprocess.PIPE, env=env, text=True
         )
 
-    def call(self, req):
+    def call(self, req, timeout=30.0):
+        import select
+
+        if self.p is None or self.p.poll() is not None:
+            self.__init__()
         self.p.stdin.write(json.dumps(req) + "\n")
         self.p.stdin.flush()
+        r, _, _ = select.select([self.p.stdout], [], [], timeout)
+        if not r:
+            self.p.kill()
+            self.p.wait()
+            self.p = None
+            return {"kind": "timeout", "failed": [], "exc": None, "site": None, "msg": "concrete run exceeded %.0fs" % timeout, "passed": 0, "offtable": [], "info": {}}
         line = self.p.stdout.readline()
         if not line:
+            self.p = None
             raise RuntimeError("concrete server died")
         return json.loads(line)
 
     def close(self):
+        if self.p is None:
+            return
         try:
             self.p.stdin.close()
             self.p.wait(timeout=5)
@@ -367,6 +384,19 @@ def model_to_inputs(ctx, model):
     return vals, funcs
 
 
+def small_model_constraints(ctx, bound):
+    cs = []
+    for n, c in ctx.vars.items():
+        if z3.is_int(c) and "[" not in n:  # text code points keep their own ranges
+            cs.append(z3.And(c >= -bound, c <= bound))
+    for name, (decl, seen) in ctx.apps.items():
+        if name == "W":
+            continue
+        for a in seen:
+            cs.append(z3.And(decl(*a) >= -bound, decl(*a) <= bound))
+    return cs
+
+
 class InstanceResult(dict):
     pass
 
@@ -388,13 +418,13 @@ def run_instance(module, inst, tier, seed, concrete=None, refine=None):
     res = {
         "name": name, "func": inst["func"], "params": params, "paths": 0, "kinds": {}, "forks": 0, "obligations": 0,
         "discharged": 0, "validated": 0, "validation_mismatch": [], "candidates": [], "inconclusive": [],
-        "sample": None, "functions": [], "conc_sites": {}, "notes": [],
+        "sample": None, "functions": [], "conc_sites": {}, "notes": [], "unrealised": [],
     }
     own_conc = False
     if concrete is None:
         concrete = ConcreteServer()
         own_conc = True
-    cand_seen = set()
+    cand_seen = {}
 
     def fn():
         I = SymInputs(Ctx.cur, params)
@@ -408,29 +438,44 @@ def run_instance(module, inst, tier, seed, concrete=None, refine=None):
     def candidate(ctx, kind, sig, model, pr):
         """A counterexample candidate: make it replayable, replay on the real code, record."""
         key = (kind, sig)
-        if key in cand_seen and len(res["candidates"]) >= 40:
+        cand_seen[key] = cand_seen.get(key, 0) + 1
+        if cand_seen[key] > 3 or len(res["candidates"]) >= 24:
+            res["more_failing_paths"] = res.get("more_failing_paths", 0) + 1
             return
-        extra = uw.refine_for_replay(ctx)
+        alts = uw.refine_for_replay(ctx) or [[]]
+        neg = [z3.Not(sig_cond[0])] if kind == "check" else []
         m2 = None
-        if extra is not None:
-            if kind == "check":
-                r, m2 = ctx._check(z3.Not(sig_cond[0]), *extra)
+        r = None
+        for extra in alts:
+            # prefer small witnesses: readable, and cheap to replay (a 60000-column canvas is legal but slow)
+            for bound in (8, 64, 4096, None):
+                small = small_model_constraints(ctx, bound) if bound is not None else []
+                r, m2 = ctx._check(*neg, *extra, *small, timeout_ms=3000)
+                if r == "sat":
+                    break
+            if r == "sat":
+                break
+        if r != "sat":
+            if alts == [[]]:
+                m2 = model
             else:
-                r, m2 = ctx._check(*extra)
-            if r != "sat":
-                res["notes"].append("unrealised counterexample for %s %s (%s under the real-environment constraints)" % (kind, sig, r))
-                res["inconclusive"].append("unrealised:%s" % (sig,))
+                res["unrealised"].append("%s %s: %s under the real-environment constraints" % (kind, sig, r))
                 return
-        else:
-            m2 = model
         vals, funcs = model_to_inputs(ctx, m2)
         out = concrete.call(conc_req(vals, funcs, True))
+        if out["kind"] in ("unrealised", "timeout"):
+            res["unrealised"].append("%s %s: %s" % (kind, sig, out["msg"]))
+            return
         reproduced = False
         if kind == "check":
             reproduced = sig in out["failed"]
         else:
             reproduced = out["kind"] == "exc" and out["exc"] == sig[0]
-        cand_seen.add(key)
+        if not reproduced and any(k.startswith("child_") for k in out.get("info", {})):
+            # the bundled widget chosen to stand for an abstract child (e.g. Pile([]) for "0 rows") is not
+            # equivalent to it in every respect (sizing set); such a replay shows nothing either way
+            res["unrealised"].append("%s %s: not reproduced with the realisation %s" % (kind, sig, {k: v for k, v in out["info"].items() if k.startswith("child_")}))
+            return
         res["candidates"].append(
             {"kind": kind, "sig": sig if _isinstance(sig, str) else list(sig), "vals": vals, "funcs": funcs, "reproduced": reproduced,
              "concrete": out, "tb": (pr.tb or "")[-1500:] if kind == "exc" else None}
@@ -443,7 +488,7 @@ def run_instance(module, inst, tier, seed, concrete=None, refine=None):
         res["kinds"][pr.kind] = res["kinds"].get(pr.kind, 0) + 1
         if pr.kind == "unsupported":
             if len(res["inconclusive"]) < 20:
-                res["inconclusive"].append("unsupported: %s | %s" % (pr.value, (pr.tb or "").strip().splitlines()[-3:] if pr.tb else ""))
+                res["inconclusive"].append("unsupported: %s | %s" % (pr.value, " <- ".join(l.strip() for l in (pr.tb or "").strip().splitlines() if l.strip().startswith("File"))[-700:]))
             else:
                 res["inconclusive"].append("unsupported")
             return
@@ -451,6 +496,7 @@ def run_instance(module, inst, tier, seed, concrete=None, refine=None):
             return
         # 1. obligations
         obs = pr.obligations
+        path_sat = set()
         res["obligations"] += len(obs)
         if obs:
             allc = z3.And(*[c for _, c, _ in obs])
@@ -463,6 +509,7 @@ def run_instance(module, inst, tier, seed, concrete=None, refine=None):
                     if r1 == "unsat":
                         res["discharged"] += 1
                     elif r1 == "sat":
+                        path_sat.add(oname)
                         sig_cond[0] = c
                         candidate(ctx, "check", oname, m1, pr)
                     else:
@@ -475,16 +522,23 @@ def run_instance(module, inst, tier, seed, concrete=None, refine=None):
             candidate(ctx, "exc", sig, pr.witness, pr)
         # 3. validation of the path witness against the un-lifted implementation
         if res["validated"] + len(res["validation_mismatch"]) < nvalidate and pr.witness is not None:
-            vals, funcs = model_to_inputs(ctx, pr.witness)
+            wit = pr.witness
+            for bound in (8, 64, 4096):
+                r, m = ctx._check(*small_model_constraints(ctx, bound), timeout_ms=2000)
+                if r == "sat":
+                    wit = m
+                    break
+            vals, funcs = model_to_inputs(ctx, wit)
             out = concrete.call(conc_req(vals, funcs, False))
+            if out["kind"] == "timeout":
+                return
             ok = True
             if pr.kind == "ok":
                 ok = out["kind"] == "ok"
             else:
                 ok = out["kind"] == "exc" and out["exc"] == type(pr.value).__name__
             # concrete failed checks must be explained by a sat obligation on this path
-            sat_names = {c["sig"] for c in res["candidates"] if c["kind"] == "check"}
-            if ok and any(f not in sat_names for f in out["failed"]):
+            if ok and any(f not in path_sat for f in out["failed"]):
                 ok = False
             if ok:
                 res["validated"] += 1
@@ -503,6 +557,8 @@ def run_instance(module, inst, tier, seed, concrete=None, refine=None):
         if own_conc:
             concrete.close()
     res["complete"] = bool(complete)
+    if res["unrealised"]:
+        res["inconclusive"].append("%d counterexample(s) over abstract children that no bundled widget realises (first: %s)" % (len(res["unrealised"]), res["unrealised"][0][:300]))
     if not complete:
         res["inconclusive"].append("budget exhausted (%.0fs / paths=%d)" % (timeout, res["paths"]))
     # coverage certificate: the explored path conditions jointly cover the axioms' space
